@@ -88,6 +88,19 @@ theorem bufferedEntry_refines {cap : Nat} (hcap : 0 < cap) :
       | some e' => e'.buf ≠ [] ∧ e'.view = rest) :=
   ⟨bufEntry_read hcap, bufEntry_step hcap⟩
 
+/-- **fileEntry_refines**: at file level an entry is `(buffer, offset_, remaining_)` into the shared
+data file; `Read` loads `min(per_buffer, remaining_)` records at `offset_` and advances both.
+Under the abstraction "what is still on disk is `data[offset_, offset_ + remaining_)`" this is
+exactly the buffered entry above (so, with `bufferedEntry_refines`, each queue entry delivers
+precisely the slice of the file that `Push(base, offset, size)` assigned to it, in order, once). -/
+theorem fileEntry_refines (data : List α) (cap : Nat) :
+    (∀ o r, o + r ≤ data.length →
+      (FileEntry.read data cap o r).map (FileEntry.abs data) = BufEntry.read cap (readAt data (o, r))) ∧
+    (∀ e : FileEntry α, e.offset + e.remaining ≤ data.length →
+      (e.increment data cap).map (FileEntry.abs data) = (FileEntry.abs data e).increment cap ∧
+      ∀ e', e.increment data cap = some e' → e'.offset + e'.remaining = e.offset + e.remaining) :=
+  ⟨fun o r h => fileEntry_read data cap o r h, fun e h => fileEntry_increment data cap e h⟩
+
 /-! ## The external sort -/
 
 /-! The block sort of the code is `std::sort`, whose order among equal records is unspecified; the
@@ -420,6 +433,28 @@ theorem codeSort_sorted_perm {lt : α → α → Bool} (h : StrictWeak lt) (pick
     out.Pairwise (fun a b => lt b a = false) ∧ out ~ blocks.flatten := by
   obtain ⟨plan, _, hp⟩ := codeSort_refines lt neverCombine pick cfg lazyMem blocks out p ret ho
   exact ⟨extSort_sorted h (neverCombine_keeps lt) pick blocks plan hp, extSort_perm h pick blocks plan hp⟩
+
+/-- what the check compares byte for byte: for a total order on the occurring records, the output
+of the code's plan is the specification value `sortSpec` (sorted input) -/
+theorem codeSort_eq_spec {lt : α → α → Bool} (h : StrictWeak lt) (pick) (cfg : Cfg) (lazyMem : Nat)
+    (blocks : List (List α))
+    (htot : ∀ a b, a ∈ blocks.flatten → b ∈ blocks.flatten → lt a b = false → lt b a = false → a = b)
+    (out : List α) (p ret : Nat)
+    (ho : codeSort lt neverCombine pick cfg lazyMem blocks = .ok (out, p, ret)) :
+    out = sortSpec lt neverCombine blocks := by
+  obtain ⟨plan, _, hp⟩ := codeSort_refines lt neverCombine pick cfg lazyMem blocks out p ret ho
+  rw [extSort_eq_spec h blocks htot pick plan] at hp
+  exact (Option.some.inj hp).symm
+
+/-- … and with the counting combiner and at least two non-empty blocks -/
+theorem codeSort_combine_eq_spec {κ : Type} [DecidableEq κ] {lt : α → α → Bool} {key : α → κ} {val : α → Nat} {comb}
+    (C : Counting lt key val comb) (pick) (cfg : Cfg) (lazyMem : Nat) (blocks : List (List α))
+    (hb : 2 ≤ (blocks.filter (fun b => !b.isEmpty)).length) (out : List α) (p ret : Nat)
+    (ho : codeSort lt comb pick cfg lazyMem blocks = .ok (out, p, ret)) :
+    out = sortSpec lt comb blocks := by
+  obtain ⟨plan, _, hp⟩ := codeSort_refines lt comb pick cfg lazyMem blocks out p ret ho
+  rw [extSort_combine_eq_spec C blocks hb pick plan] at hp
+  exact (Option.some.inj hp).symm
 
 /-- **codeSort_ok — no abort, no stall**: for every configuration the `Sort` constructor accepts
 (`entry_size > 0`, `buffer_size` a positive multiple of it after rounding, `total_memory ≥ 4·buffer_size`),
